@@ -42,7 +42,8 @@ def gen_case(seed, i):
         for k in range(rng.randint(2, 4)):
             flips = [] if k < 2 or n < 20 else [[n // 2 + k, k]]
             p = "r/%s/f%dk%d" % (rng.choice(["a", "b"]), f, k)
-            w.add_file(p, _fam(f + 1, n, flips), mt=T0_NS - (10 + k) * 10**9)
+            # modification times with a millisecond part, in the same second in which the history starts
+            w.add_file(p, _fam(f + 1, n, flips), mt=T0_NS + (3 * f + k) * 5 * 10**6 + rng.choice([0, 1, 999]) * 10**3)
             files.append(p)
     steps = []
     live = list(files)
@@ -81,7 +82,7 @@ def gen_case(seed, i):
         if rng.random() < 0.2:
             t = rng.choice([x for x in xform.TRANSFORMS if "--in-place" not in x[1] and "$OUT" not in x[0]])
             cfg = dict(cfg, transform=t[0], transform_flags=list(t[1]))
-        step = {"edits": edits, "cfg": cfg, "dt": rng.choice([10**6, 2 * 10**6, 10**9, 3600 * 10**9])}
+        step = {"edits": edits, "cfg": cfg, "dt": rng.choice([10**6, 10**6, 2 * 10**6, 7 * 10**6, 10**9, 3600 * 10**9])}
         steps.append(step)
     if rng.random() < 0.2 and len(steps) >= 2:
         k = rng.randrange(len(steps) - 1)
@@ -181,7 +182,7 @@ def run_case(case):
     with core.RunDir("c12") as rd:
         World.from_json(case["world"]).materialise(rd.world)
         world_content = {e["p"]: content_bytes(e["c"]) for e in case["world"]["entries"] if e["t"] == "f"}
-        clock = T0_NS
+        clock = T0_NS + 100 * 10**6      # all initial mtimes lie in [T0, T0+100ms)
         labels = {}
         traces = []
         served = 0
@@ -249,7 +250,7 @@ def run_case(case):
             "probes": {"steps": len(case["steps"]), "steps_served_from_cache": served, "killed_runs": int(killed_any),
                        "inode_reuse_presented": len([e for s in case["steps"] for e in s["edits"] if e["kind"] == "recreate"]),
                        "config_switches": len({repr(sorted((k, str(v)) for k, v in s["cfg"].items())) for s in case["steps"]}) - 1},
-            "sim_ns": clock - T0_NS,
+            "sim_ns": clock - T0_NS - 100 * 10**6,
             "invocations": inv,
             "info": {"steps": [[e["kind"] for e in s["edits"]] for s in case["steps"]], "served": served, "killed": killed_any},
         }
